@@ -206,7 +206,7 @@ fn principal_texts(e: &syn::Expr, out: &mut Vec<String>) {
 
 const DECORATED: [&str; 2] = ["FuncDef", "ClassDef"];
 
-fn grammar_ranges(cx: &mut Ctx, g: &Grammar) {
+pub fn grammar_ranges(cx: &mut Ctx, g: &Grammar) {
     cx.rule("C02.R1", "the node an alternative returns takes its range start from the @L capture before the alternative's first symbol (FuncDef/ClassDef: after Decorator*, as the reference does) and its end from the @R capture after the last symbol, or — for compound statements — from `.end()` of the trailing suites taken in reverse source order down to the first mandatory one");
     cx.rule("C02.R2", "no node range is derived from `.start()`/`.end()` of an expression child: the parenthesised atom returns the inner node with the inner range, so such a range silently drops parentheses and trailing commas");
     cx.rule("C02.R3", "a node built inside a closure or loop over a list symbol does not take the alternative-level @L/@R captures as its range");
